@@ -253,7 +253,7 @@ def run(ctx):
     if ctx.tier == "thorough":
         args = ["-cross", "-pergroup", "60", "-mutants", "800", "-synth", "600", "-maxpkgs", "8000", "-sbomdocs", "800"]
     else:
-        args = ["-pergroup", "14", "-mutants", "100", "-synth", "100", "-maxpkgs", "1100", "-sbomdocs", "100"]
+        args = ["-pergroup", "12", "-mutants", "80", "-synth", "80", "-maxpkgs", "1000", "-sbomdocs", "80"]
     rc, out = vlib.sh([binp, "-repo", vlib.REPO, "-out", vfile, "-jsonl", side, "-summary", summ, "-seed", str(ctx.seed),
                        "-types", os.path.join(vlib.BUILD, "purltypes.json")] + args + (["-c03dump", dump] if dump else []), timeout=1500)
     if dump:
